@@ -497,6 +497,7 @@ def scalar_traces_classify(rep: Report, tr, texts, floats, obs, fobs) -> None:
 
 
 # ================================================================ type / configuration level (Dump.tla)
+import collections  # noqa: E402
 import contextlib  # noqa: E402
 import copy  # noqa: E402
 import dataclasses  # noqa: E402
@@ -623,7 +624,7 @@ def g_tree(x):
     k = x["k"]
     if k in ("list", "tuple", "set"):
         return [g_tree(e) for e in x["v"]]
-    if k == "dict":
+    if k in ("dict", "odict"):
         return {g_tree(a): g_tree(b) for a, b in x["v"]}
     if k == "ns":
         return {txt(a): g_tree(b) for a, b in x["v"]}
@@ -686,6 +687,10 @@ def g_type(t):
         return g_restricted(p[0])
     if c == "any":
         return typing.Any
+    if c == "odict":  # round 5: an ORDER-SENSITIVE mapping
+        return typing.OrderedDict[g_type(p[0]), g_type(p[1])]
+    if c == "setb":
+        return set
     raise ValueError(f"unknown type term {t}")
 
 
@@ -702,6 +707,8 @@ def a_type(T):
         return T_("none")
     if T is typing.Any:
         return T_("any")
+    if T is set:
+        return T_("setb")
     for name, cls in REG.items():
         if T is cls:
             return T_("reg", [name])
@@ -726,6 +733,8 @@ def a_type(T):
         if len(args) == 2 and args[1] is Ellipsis:
             return T_("tuplee", [a_type(args[0])])
         return T_("tuple", [a_type(a) for a in args])
+    if origin is collections.OrderedDict:
+        return T_("odict", [a_type(args[0]), a_type(args[1])])
     if origin is dict:
         return T_("dict", [a_type(args[0]), a_type(args[1])])
     raise ValueError(f"a_type: {T!r}")
@@ -734,7 +743,7 @@ def a_type(T):
 def _find_enum(t, name):
     if t["c"] == "enum":
         return g_enum([txt(n) for n in t["p"]]) if name in [txt(n) for n in t["p"]] else None
-    if t["c"] in ("union", "list", "set", "tuple", "tuplee", "dict"):
+    if t["c"] in ("union", "list", "set", "tuple", "tuplee", "dict", "odict"):
         for m in t["p"]:
             e = _find_enum(m, name)
             if e is not None:
@@ -757,8 +766,10 @@ def g_value(t, v):
         sub = [m for m in t["p"]] if t["c"] in ("list", "set", "tuple", "tuplee") else []
         items = [g_value(sub[i if t["c"] == "tuple" else 0] if sub else t, e) for i, e in enumerate(v["v"])]
         return items if k == "list" else tuple(items) if k == "tuple" else set(items)
+    if k == "odict":
+        return collections.OrderedDict((g_scalar(a), g_value(t["p"][1] if t["c"] == "odict" else t, b)) for a, b in v["v"])
     if k == "dict":
-        vt = t["p"][1] if t["c"] == "dict" else t
+        vt = t["p"][1] if t["c"] in ("dict", "odict") else t
         return {g_scalar(a): g_value(vt, b) for a, b in v["v"]}
     if k == "ns":
         return Namespace(**{txt(a): g_value(t, b) for a, b in v["v"]})
@@ -776,7 +787,7 @@ def g_value(t, v):
 def _find_restricted(t, kind):
     if t["c"] == "restr":
         return g_restricted(t["p"][0]) if t["p"][1] == kind else None
-    if t["c"] in ("union", "list", "set", "tuple", "tuplee", "dict"):
+    if t["c"] in ("union", "list", "set", "tuple", "tuplee", "dict", "odict"):
         for m in t["p"]:
             r = _find_restricted(m, kind)
             if r is not None:
@@ -815,6 +826,8 @@ def a_value(v) -> dict:
         return {"k": "tuple", "v": [a_value(e) for e in v]}
     if isinstance(v, (set, frozenset)):
         return {"k": "set", "v": sorted((a_value(e) for e in v), key=lambda r: json.dumps(r, sort_keys=True))}
+    if isinstance(v, collections.OrderedDict):  # the pairs IN ORDER: Dump.tla compares them as a sequence
+        return {"k": "odict", "v": [[a_value(a), a_value(b)] for a, b in v.items()]}
     if isinstance(v, dict):
         return {"k": "dict", "v": [[a_value(a), a_value(b)] for a, b in v.items()]}
     if isinstance(v, Namespace):
@@ -841,6 +854,8 @@ def deep_same(a, b) -> bool:
         return len(a) == len(b) and all(deep_same(x, y) for x, y in zip(a, b))
     if isinstance(a, (set, frozenset)):
         return len(a) == len(b) and all(any(deep_same(x, y) for y in b) for x in a)
+    if isinstance(a, collections.OrderedDict):  # order-sensitive, as OrderedDict.__eq__
+        return len(a) == len(b) and all(deep_same(k, k2) and deep_same(v, v2) for (k, v), (k2, v2) in zip(a.items(), b.items()))
     if isinstance(a, dict):
         return len(a) == len(b) and all(any(deep_same(k, k2) and deep_same(v, b[k2]) for k2 in b) for k, v in a.items())
     if isinstance(a, Namespace):
@@ -1279,8 +1294,8 @@ def show_value(v) -> str:
             return REG[v["v"][0]].__name__ + "(" + repr(txt(v["v"][1:])) + ")"
         if v["k"] in ("list", "tuple", "set"):
             return v["k"] + "(" + ", ".join(show_value(e) for e in v["v"]) + ")"
-        if v["k"] == "dict":
-            return "{" + ", ".join(show_value(a) + ": " + show_value(b) for a, b in v["v"]) + "}"
+        if v["k"] in ("dict", "odict"):
+            return ("OrderedDict" if v["k"] == "odict" else "") + "{" + ", ".join(show_value(a) + ": " + show_value(b) for a, b in v["v"]) + "}"
         if v["k"] == "str":
             return repr(txt(v["v"]))
         if v["k"] == "null":
@@ -1557,7 +1572,10 @@ def _strategies():
                        st.sampled_from(ENUM_NAMES).map(lambda ns: T_("enum", [syms(n) for n in ns])),
                        st.lists(st.one_of(text.map(lambda s: V_("str", s)), st.integers(-3, 30).map(lambda i: V_("int", str(i))), st.just(dict(NULLREC))),
                                 min_size=1, max_size=3, unique_by=lambda v: json.dumps(v)).map(lambda vs: T_("literal", vs)))
-    hashable_t = st.one_of(st.sampled_from([T_("str"), T_("int")]), st.sampled_from(ENUM_NAMES).map(lambda ns: T_("enum", [syms(n) for n in ns])))
+    hashable_t = st.one_of(st.sampled_from([T_("str"), T_("int")]), st.sampled_from(ENUM_NAMES).map(lambda ns: T_("enum", [syms(n) for n in ns])),
+                           # round 5: members of several kinds (a serialiser must not need an order on them)
+                           st.sampled_from([T_("union", [T_("int"), T_("str")]), T_("union", [T_("int"), T_("none")]), T_("union", [T_("str"), T_("none")]),
+                                            T_("union", [T_("float"), T_("str"), T_("none")])]))
 
     def dc_of(field_types):
         @st.composite
@@ -1587,10 +1605,13 @@ def _strategies():
             return st.just(dict(NULLREC))
         if c == "list":
             return st.just({"k": "list", "v": []})
+        if c in ("odict", "set"):
+            return st.just({"k": c, "v": []})
         return st.just(dict(NULLREC))
 
     simple_field_t = st.one_of(st.sampled_from([T_("str"), T_("int"), T_("float"), T_("bool")]), st.sampled_from([T_("str"), T_("int")]).map(lambda t: T_("union", [t, T_("none")])),
-                               st.just(T_("list", [T_("int")])))
+                               st.just(T_("list", [T_("int")])),
+                               st.sampled_from([T_("odict", [T_("str"), T_("int")]), T_("set", [T_("union", [T_("int"), T_("str")])])]))  # round 5: as dataclass fields
 
     REG_TEXTS = {
         "Rpath": ["/x", "a/b", "None", "rel/file.txt", "1e3", "x y", "1:30"], "Rpathlike": ["/x", "a b", "rel/f.txt", "1:30", "yes"],
@@ -1630,6 +1651,8 @@ def _strategies():
             st.lists(child, min_size=1, max_size=3).map(lambda ts: T_("tuple", ts)),
             child.map(lambda t: T_("tuplee", [t])),
             st.tuples(st.sampled_from([T_("str"), T_("str"), T_("int")]), child).map(lambda kv: T_("dict", list(kv))),
+            st.tuples(st.sampled_from([T_("str"), T_("str"), T_("int")]), child).map(lambda kv: T_("odict", list(kv))),  # round 5: order-sensitive
+            st.just(T_("setb")),
             dc_of(simple_field_t).flatmap(lambda d: st.sampled_from([T_("union", [d, T_("none")]), T_("list", [d]), T_("dict", [T_("str"), d]), T_("tuple", [d, T_("int")])])),
             # round 4: a dataclass inside a dataclass (the inner one is a nested group of the outer one's parser)
             dc_of(simple_field_t).flatmap(lambda d: st.sampled_from([
@@ -1690,7 +1713,10 @@ def _strategies():
             return st.lists(inputs(p[0]), max_size=3, unique_by=lambda v: json.dumps(v)).map(lambda xs: {"k": "list", "v": xs})
         if c == "tuple":
             return st.tuples(*[inputs(m) for m in p]).map(lambda xs: {"k": "list", "v": list(xs)})
-        if c == "dict":
+        if c == "setb":
+            scal = st.one_of(text.map(lambda s: V_("str", s)), st.integers(-3, 30).map(lambda i: V_("int", str(i))), st.just(dict(NULLREC)))
+            return st.lists(scal, max_size=3, unique_by=lambda v: json.dumps(v)).map(lambda xs: {"k": "list", "v": xs})
+        if c in ("dict", "odict"):
             keys = text.map(lambda s: V_("str", s)) if p[0]["c"] == "str" else st.integers(-3, 40).map(lambda i: V_("str", str(i)))
             return st.lists(st.tuples(keys, inputs(p[1])), max_size=3, unique_by=lambda kv: json.dumps(kv[0])).map(lambda kvs: {"k": "dict", "v": [list(kv) for kv in kvs]})
         if c == "dc":
